@@ -26,7 +26,7 @@ def expr_of(case):
         beh = []
         for k, i in enumerate(case["args"]):
             if case.get("fn_raises") == k:
-                beh.append(["raise", "E3"])
+                beh.append(["raise", "SI" if k % 2 else "E3"])  # (at odd positions the function fails with a StopIteration)
                 break
             beh.append(["fut", "src", combo.src(i)])
         return ["f_traverse", beh, list(range(len(case["args"]))), "iter" if case.get("iter") else "list"]
